@@ -199,7 +199,7 @@ def rf46(run):
         raise F.AnalysisBroken('func_alloca_features: the statement clearing set_top_alloca_p on an opcode was not found')
     codes = dict(tu.enum('MIR_insn_code_t'))
     for c in ('MIR_LABEL', 'MIR_CALL', 'MIR_INLINE', 'MIR_JCALL', 'MIR_JMP', 'MIR_BT', 'MIR_BF', 'MIR_BEQ', 'MIR_BLT', 'MIR_UBGE', 'MIR_FBNE',
-              'MIR_DBGT', 'MIR_LDBLE', 'MIR_BO', 'MIR_UBNO', 'MIR_SWITCH', 'MIR_JMPI', 'MIR_PRBEQ'):
+              'MIR_DBGT', 'MIR_LDBLE', 'MIR_BO', 'MIR_UBNO', 'MIR_SWITCH', 'MIR_JMPI', 'MIR_PRBEQ', 'MIR_BSTART'):
         v = preds.eval(site['c'][0], {'insn->code': codes[c], 'set_top_alloca_p': 1}, frozenset())
         ok = v is not None and bool(v)
         run.ob(rule, (c,), ok, {'opcode': c, 'ends the search for the top alloca': v})
@@ -209,6 +209,7 @@ def rf46(run):
             run.violation(rule, f, 'top alloca after %s' % c, 'a constant alloca that follows a %s is still taken for the function\'s top '
                           'alloca: %s' % (c, 'it is executed more than once' if c == 'MIR_LABEL' else 'a call in front of it is inlined with '
                                           'a frame address computed from the alloca register before the alloca has executed' if c in ('MIR_CALL', 'MIR_INLINE', 'MIR_JCALL')
+                                          else 'its memory is released by the matching bend while callees inlined behind it still use it' if c == 'MIR_BSTART'
                                           else 'a branch can jump over it, and the frame of a callee inlined behind the join is addressed from a register that was never set'), line=site['l'])
     run.min_instances(rule, 4)
 
